@@ -471,7 +471,10 @@ func (a *App) Run(w Widget) error {
 			win := a.vx.Window()
 			win.Clear()
 			a.vx.HideCursor()
-			s.render(win, a.fh.focused)
+			// The root surface is clipped to its own size, as every
+			// other surface is
+			root := win.New(0, 0, int(s.Size.Width), int(s.Size.Height))
+			s.render(root, a.fh.focused)
 
 			switch a.refresh {
 			case true:
